@@ -277,7 +277,11 @@ TWINS = [
     # ---- round e
     ('uq-mul-binop-swapped', 'C12', 'quaternion.py', '            return right.__class__(left.binop(right, base.qqmul))', '            return right.__class__(right.binop(left, base.qqmul))', 'R7o', 'UnitQuaternion.__mul__'),
     ('uq-div-binop-swapped', 'C02', 'quaternion.py', 'return UnitQuaternion(left.binop(right, lambda x, y: base.qqmul(x, base.conj(y))))', 'return UnitQuaternion(right.binop(left, lambda x, y: base.qqmul(x, base.conj(y))))', 'R7o', 'UnitQuaternion.__truediv__'),
-    ('pose-mul-homogeneous-vector', 'C08', 'super_pose.py', '            elif len(left) > 1 and base.isvector(right, left.N):', '            elif len(left) == 1 and left.isSE and base.isvector(right, left.N + 1):\n                return left.A @ base.getvector(right)\n            elif len(left) > 1 and base.isvector(right, left.N):', 'R6d', 'SMPose.__mul__'),
+    # two cooperating edits (R6d is a premise rule: it is armed only while some reflected * forwards an untested left operand)
+    ('pose-mul-homogeneous-vector', 'C08', [
+        ('quaternion.py', "        if not base.isscalar(left):\n            raise ValueError('left operand of * must be a scalar')\n        return Quaternion([left * q._A for q in right])", "        return Quaternion([left * q._A for q in right])"),
+        ('super_pose.py', '            elif len(left) > 1 and base.isvector(right, left.N):', '            elif len(left) == 1 and left.isSE and base.isvector(right, left.N + 1):\n                return left.A @ base.getvector(right)\n            elif len(left) > 1 and base.isvector(right, left.N):'),
+    ], None, None, 'R6d', 'SMPose.__mul__'),
     ('se2-ctor-transl2-fallthrough', 'C07', 'pose2d.py', "            elif len(x) == 2:\n                # SE2([x,y])\n                self.data = [tr.transl2(x)]", "            elif len(x) != 3:\n                # SE2([x,y])\n                self.data = [tr.transl2(x)]", 'R20', 'SE2.__init__'),
     ('se3-ctor-transl-unguarded', 'C07', 'pose3d.py', '            elif base.isvector(x, 3):\n                # SE3( [x, y, z] )', '            elif not isinstance(x, np.ndarray) or x.ndim == 1:\n                # SE3( [x, y, z] )', 'R20', 'SE3.__init__'),
     ('distance-zero-before-parallel', 'C19', 'geom3d.py', '        if l1 | l2:\n            # lines are parallel', '        if abs(l1 * l2) < 10*_eps:\n            l = 0\n        elif l1 | l2:\n            # lines are parallel', 'R23', 'distance'),
@@ -314,6 +318,18 @@ TWINS = [
     ('oa2r-default-axis', 'C01', 'base/transforms3d.py', '    o = np.cross(a, n)\n    R = np.stack((base.unitvec(n), base.unitvec(o), base.unitvec(a)), axis=1)', '    o = np.cross(a, n)\n    R = np.stack((base.unitvec(n), base.unitvec(o), base.unitvec(a)))', 'R16', 'oa2r'),
     ('se3-twist3-no-twist-option', 'C03', 'pose3d.py', 'return Twist3(self.log(twist=True))', 'return Twist3(self.log())', 'R21', 'SE3.Twist3'),
     ('distance-antiparallel', 'C19', 'geom3d.py', 'l1.v - l2.v * np.dot(l1.w, l2.w) / np.dot(l2.w, l2.w)', 'l1.v - l2.v * np.linalg.norm(l1.w) / np.linalg.norm(l2.w)', 'R23', 'distance'),
+    # ---- round j
+    ('pow-transpose-local-list', 'C01', 'super_pose.py', "        return self.__class__([np.linalg.matrix_power(x, n) for x in self.data], check=False)", "        data = self.data\n        if n < 0:\n            data = [x.T for x in data]\n            n = -n\n        return self.__class__([np.linalg.matrix_power(x, n) for x in data], check=False)", 'R15c', 'SMPose.__pow__'),
+    ('udq-dual-order', 'C06', 'DualQuaternion.py', 'self.dual = 0.5 * D * S', 'self.dual = 0.5 * S * D', 'R22', 'UnitDualQuaternion.__init__'),
+    ('udq-se3-order', 'C06', 'DualQuaternion.py', 't = 2 * self.dual * self.real.conj()', 't = 2 * self.real.conj() * self.dual', 'R22', 'UnitDualQuaternion.SE3'),
+    ('udq-se3-order-c04', 'C04', 'DualQuaternion.py', 't = 2 * self.dual * self.real.conj()', 't = 2 * self.real.conj() * self.dual', 'R13', 'UnitDualQuaternion.SE3'),
+    ('udq-se3-no-factor', 'C04', 'DualQuaternion.py', 't = 2 * self.dual * self.real.conj()', 't = self.dual * self.real.conj()', 'R13', 'UnitDualQuaternion.SE3'),
+    ('qrmul-no-scalar-test', 'C08', 'quaternion.py', "        if not base.isscalar(left):\n            raise ValueError('left operand of * must be a scalar')\n        return Quaternion([left * q._A for q in right])", "        return Quaternion([left * q._A for q in right])", 'R6g', 'Quaternion.__rmul__'),
+    ('uq-truediv-guard-direction', 'C08', 'quaternion.py', "        if isinstance(right, UnitQuaternion):\n            return UnitQuaternion(left.binop(right, lambda x, y: base.qqmul(x, base.conj(y))))", "        if isinstance(left, right.__class__):\n            return UnitQuaternion(left.binop(right, lambda x, y: base.qqmul(x, base.conj(y))))", 'R6s', 'UnitQuaternion.__truediv__'),
+    ('twist-mul-fastpath-swapped', 'C09', 'twist.py', "            return Twist3(left.binop(right, lambda x, y: base.trlog(base.trexp(x) @ base.trexp(y), twist=True)))", "            if len(left) > 1 and len(right) == 1:\n                Tr = base.trexp(right.S)\n                return Twist3([base.trlog(Tr @ base.trexp(x), twist=True) for x in left.data])\n            return Twist3(left.binop(right, lambda x, y: base.trlog(base.trexp(x) @ base.trexp(y), twist=True)))", 'R8f', 'Twist3.__mul__'),
+    ('exp-isprismatic-truth', 'C18', 'twist.py', "            return SE3([base.trexp(S * theta) for S in self.data])", "            if self.isprismatic:\n                return SE3(base.transl(self.v * theta))\n            return SE3([base.trexp(S * theta) for S in self.data])", 'R8t', 'Twist3.exp'),
+    ('exp-isprismatic-truth-c09', 'C09', 'twist.py', "            return SE3([base.trexp(S * theta) for S in self.data])", "            if self.isprismatic:\n                return SE3(base.transl(self.v * theta))\n            return SE3([base.trexp(S * theta) for S in self.data])", 'R8t', 'Twist3.exp'),
+    ('tr2delta-rt2tr-world-frame', 'C13', 'base/transforms3d.py', "        Td = trinv(T0) @ T1", "        Td = base.rt2tr(T1[:3, :3] @ T0[:3, :3].T, T0[:3, :3].T @ (T1[:3, 3] - T0[:3, 3]))", 'R16', 'tr2delta'),
 ]
 
 
@@ -324,21 +340,23 @@ def _run_twin(tw, base_root):
     try:
         shutil.copytree(os.path.join(base_root, 'spatialmath'), os.path.join(d, 'spatialmath'),
                         ignore=shutil.ignore_patterns('__pycache__'))
-        p = os.path.join(d, 'spatialmath', rel)
-        with open(p, encoding='utf-8') as fh:
-            s = fh.read()
-        if s.count(old) != 1:
-            return (tid, pid, 'skipped', 'edit site not found exactly once (%d)' % s.count(old))
-        s2 = s.replace(old, new)
-        try:
-            import warnings
-            with warnings.catch_warnings():
-                warnings.simplefilter('ignore')
-                compile(s2, p, 'exec')
-        except SyntaxError as e:
-            return (tid, pid, 'skipped', 'twin does not compile: %s' % e)
-        with open(p, 'w', encoding='utf-8') as fh:
-            fh.write(s2)
+        edits = rel if isinstance(rel, (list, tuple)) else [(rel, old, new)]
+        for (rel_, old_, new_) in edits:
+            p = os.path.join(d, 'spatialmath', rel_)
+            with open(p, encoding='utf-8') as fh:
+                s = fh.read()
+            if s.count(old_) != 1:
+                return (tid, pid, 'skipped', 'edit site not found exactly once (%d)' % s.count(old_))
+            s2 = s.replace(old_, new_)
+            try:
+                import warnings
+                with warnings.catch_warnings():
+                    warnings.simplefilter('ignore')
+                    compile(s2, p, 'exec')
+            except SyntaxError as e:
+                return (tid, pid, 'skipped', 'twin does not compile: %s' % e)
+            with open(p, 'w', encoding='utf-8') as fh:
+                fh.write(s2)
         env = dict(os.environ)
         env['VERIF_REPO'] = d
         env['VERIF_EVIDENCE_DIR'] = os.path.join(d, 'evidence')
